@@ -16,6 +16,7 @@ const (
 	MessageLength14Base = 269
 	MessageLength15Base = 65805
 	messageMaxLen       = 0x7fff0000 // Large number that works in 32-bit builds
+	maxUint32           = 0xffffffff
 )
 
 type Coder struct{}
@@ -162,6 +163,10 @@ func (c *Coder) DecodeHeader(data []byte, h *MessageHeader) (int, error) {
 
 	lenNib := (firstByte & 0xf0) >> 4
 	tkl := firstByte & 0x0f
+	if tkl > message.MaxTokenSize {
+		// RFC 8323 section 3.2: token lengths 9-15 are reserved and must be processed as a message format error
+		return -1, message.ErrInvalidTokenLen
+	}
 
 	var opLen int
 	switch {
@@ -193,7 +198,12 @@ func (c *Coder) DecodeHeader(data []byte, h *MessageHeader) (int, error) {
 		opLen = MessageLength15Base + int(extLen)
 	}
 
-	h.MessageLength = hdrOff + 1 + uint32(tkl) + math.CastTo[uint32](opLen)
+	messageLength := uint64(hdrOff) + 1 + uint64(tkl) + math.CastTo[uint64](opLen)
+	if messageLength > maxUint32 {
+		// the declared length does not fit the header structure; refuse it instead of wrapping around
+		return -1, ErrMessageTooLarge
+	}
+	h.MessageLength = math.CastTo[uint32](messageLength)
 	if len(data) < 1 {
 		return -1, message.ErrShortRead
 	}
